@@ -181,6 +181,36 @@ def r11_2(ctx):
                     ctx.undecided('R11.2', m.qual, src(s)[:110] + ' removes Dirichlet', s, 'Dirichlet set of (lv, i) is used, form not recognised')
         r = guards.returns_of(m.node)
         ctx.decide('R11.2', m.qual, 'returns indices', bool(r) and src(r[-1].value) == 'indices', m.node)
+    # what each strategy extends the new dofs by, as provenance of the sets involved:
+    #   func_supp: active functions of level i that are grandparents of the ACTIVE FUNCTIONS of level lv
+    #   cell_supp: active functions of level i supported in the ancestors of the SUPPORT of the active functions of level lv
+    #              (supports reach into deactivated, i.e. further refined, cells -- the active cells alone are a subset)
+    fs = cls.methods.get('func_supp_indices')
+    gp = [c for c in ast.walk(fs.node) if isinstance(c, ast.Call) and src(c.func).endswith('function_grandparents')]
+    if gp:
+        ctx.expect('R11.2', fs.qual, gp[0], 'self.hmesh.function_grandparents(lv, self.actfun[lv], i)', gp[0],
+                   'grandparents of the active functions of level lv on level i', label='func_supp: ' + src(gp[0]))
+    cs = cls.methods.get('cell_supp_indices')
+    cg = [c for c in ast.walk(cs.node) if isinstance(c, ast.Call) and src(c.func).endswith('cell_grandparent')]
+    if not cg or len(cg[0].args) < 3:
+        ctx.undecided('R11.2', cs.qual, 'cell_supp: cells whose ancestors are taken', cs.node, 'cell_grandparent call not recognised')
+    else:
+        cells = cg[0].args[1]
+        is_support = isinstance(cells, ast.Call) and isinstance(cells.func, ast.Attribute) and cells.func.attr == 'support'
+        plain_cells = {x.attr for x in ast.walk(cells) if isinstance(x, ast.Attribute)} & {'active', 'deactivated'} \
+            or any(isinstance(x, ast.Call) and src(x.func).endswith('active_cells') for x in ast.walk(cells))
+        if is_support:
+            ctx.expect('R11.2', cs.qual, cells, 'self.hmesh.meshes[lv].support(self.actfun[lv])', cg[0],
+                       'cells in the support of the active functions of level lv', label='cell_supp: cells = ' + src(cells))
+        elif plain_cells:
+            ctx.violated('R11.2', cs.qual, 'cell_supp: cells = support of the active functions of level lv', cg[0],
+                         '`%s` takes the active CELLS of level lv; the supports of its active functions also cover deactivated (further refined) cells, '
+                         'so coarse functions that meet level lv only there drop out of the neighbour set and their inter-level blocks are never '
+                         'assembled / smoothed' % src(cells))
+        else:
+            ctx.undecided('R11.2', cs.qual, 'cell_supp: cells = support of the active functions of level lv', cg[0], src(cells)[:80])
+        ctx.expect('R11.2', cs.qual, cg[0].args[0], 'lv', cg[0], 'ancestors are taken from level lv ...', label='cell_supp: from level ' + src(cg[0].args[0]))
+        ctx.expect('R11.2', cs.qual, cg[0].args[2], 'i', cg[0], '... on level i', label='cell_supp: to level ' + src(cg[0].args[2]))
     # new_indices
     m = cls.methods.get('new_indices')
     t = src(guards.returns_of(m.node)[-1].value).replace(' ', '')
@@ -471,6 +501,48 @@ def r11_6(ctx):
         else:
             ctx.undecided('R11.6', step.qual, src(s), s, 'unrecognised update of the iterate')
     ctx.floor('R11.6', 'updates of the iterate in the V-cycle', n, 4)
+    # freshness of the restricted residual: between the (unconditional) computation r = f - A x1 and its restriction there is
+    # no write to x1 -- on every path, whichever smoother ran
+    rc = [s for s in own_nodes(step.node) if isinstance(s, ast.Assign) and isinstance(s.value, ast.Call) and '.T.dot(' in src(s.value)]
+    if not rc:
+        ctx.undecided('R11.6', step.qual, 'restricted residual is fresh', step.node, 'restriction statement not recognised')
+    else:
+        use = rc[0]
+        rname = [a for a in use.value.args if isinstance(a, ast.Name)]
+        blk = None
+        p = parent(use)
+        for field in ('body', 'orelse'):
+            if isinstance(getattr(p, field, None), list) and use in getattr(p, field):
+                blk = getattr(p, field)
+        if not rname or blk is None:
+            ctx.undecided('R11.6', step.qual, 'restricted residual is fresh', use, 'structure not recognised')
+        else:
+            rn = rname[0].id
+            before = blk[:blk.index(use)]
+
+            def writes_x(st):
+                for x in ast.walk(st):
+                    if isinstance(x, ast.AugAssign) and src(x.target).startswith('x1'):
+                        return True
+                    if isinstance(x, ast.Assign) and any(src(t).startswith('x1') for t in x.targets):
+                        return True
+                    if isinstance(x, ast.Call) and call_name(x) in ('gauss_seidel',) and len(x.args) >= 2 and src(x.args[1]) == 'x1':
+                        return True
+                return False
+            last_write = max([i for i, st in enumerate(before) if writes_x(st)] or [-1])
+            defs = [i for i, st in enumerate(before) if isinstance(st, ast.Assign) and any(isinstance(t, ast.Name) and t.id == rn for t in st.targets)]
+            fresh = [i for i in defs if i > last_write and 'x1' in {x.id for x in ast.walk(before[i].value) if isinstance(x, ast.Name)}]
+            if fresh:
+                ctx.met('R11.6', step.qual, 'restricted residual is fresh', before[fresh[-1]],
+                        '`%s` is computed unconditionally after the last update of x1 and before `%s`' % (src(before[fresh[-1]]), src(use)))
+            else:
+                cond_defs = [s for s in own_nodes(step.node) if isinstance(s, ast.Assign) and any(isinstance(t, ast.Name) and t.id == rn for t in s.targets)
+                             and s.lineno < use.lineno]
+                ctx.violated('R11.6', step.qual, 'restricted residual is fresh', use,
+                             'no unconditional `%s = f - A x1` between the last update of x1 (pre-smoothing) and `%s`: on some path the residual that is '
+                             'restricted predates an update of x1 (definitions of %s before the use: %s), so the coarse-grid correction works from a '
+                             'stale residual and the cycle is no longer the multiplicative two-level scheme'
+                             % (rn, src(use), rn, '; '.join('line %d under %s' % (s.lineno, ' and '.join(t for (t, _p, _n) in guards.path_conditions(s)) or 'no condition') for s in cond_defs) or 'none'))
     ret = src(guards.returns_of(lm.node)[-1].value).replace(' ', '')
     ctx.decide('R11.6', lm.qual, 'returns ' + ret, ret == 'lambdax:step(hs.numlevels-1,x,f)', lm.node, 'one V-cycle from the finest level with the original right-hand side')
     # OperatorSmoother: u += S (f - A u)
